@@ -33,6 +33,14 @@ CLAIMED["C51"] = dict(engine="E1", technique="CBMC function contracts + loop con
     text="Proof over all doubles (NaN, infinities, signed zeros), all finite non-negative tolerances: for the Absolute, Relative, RelativeAndAbsolute and Mixed comparisons, success implies every row is finite and within tolerance and failure implies some row is not "
          "(hence self-comparison of a finite column succeeds); MTest AnalyticalTest::check and ReferenceFileComparisonTest::check pass iff value and reference are finite and within eps. AreaComparison is excluded.",
     note=TB_E1 + " Columns are is_fresh objects of at most 2^20 rows (the inductive loop argument does not depend on the bound); tolerance expressions are evaluated in the same double arithmetic as the code; message/log statements are deleted by must-fire rules.")
+CLAIMED["C39"] = dict(engine="E1", technique="CBMC function contract on the extracted text of mfront::gb::integrate / computePredictionOperator with ghost state and nondeterministic stubs for the Behaviour members; exception flow rendered with goto; loop-free, complete over all doubles K[0], all policies, 8 trait variants",
+    text="Proof for every double K[0] (NaN, infinities, non-integers), every policy and every outcome of the Behaviour members: exactly one of integration / prediction is requested with the operator kind documented for Ke (after removing the +100 speed-of-sound flag); "
+         "the speed of sound is computed iff K[0] > 50 with the documented density; the return code is -1 iff a failure source fired or the request is unsupported, else 0/1 from the proposed time-step factor (min of the a-priori and a-posteriori factors); the policy reaches the behaviour unchanged. Strict/Warning/None behaviour itself is C27.",
+    note=TB_E1 + " Behaviour members are assumed contracts (any return value, may throw); FiniteStrain K[1]/K[2] decoding and exportTangentOperator variants are not under contract.")
+CLAIMED["C40"] = dict(engine="E1", technique="frame condition (ghost version counter of the output state) in the CBMC contract of the extracted mfront::gb::integrate, one failure source per stub, exception model with ghost in-flight flag",
+    text="Proof for all inputs and all failure injections (false from initialize / time-step scaling, FAILURE from integrate, an exception from any user-code member including the energy and speed-of-sound computations): "
+         "a call returning -1 never writes the output state d.s1; a successful integration exports exactly once; a prediction request never touches it.",
+    note=TB_E1 + " d.s1 is abstracted by a ghost version counter bumped by exportStateData and the energy stores; exportStateData itself is assumed not to throw.")
 
 NOT_APPLICABLE = {
     "C03": "floating-point tolerance statement about iterative eigen-solvers (Jacobi/QL/Cardano with cos/acos); no contract within reach of CBMC-C or the real-arithmetic VC generator expresses it",
